@@ -58,6 +58,18 @@ Theorem C13_build_locked : build_locked = true.
 Proof. reflexivity. Qed.
 Print Assumptions C13_build_locked.
 
+(** One call of Executor.execute_run (read off the source on every run, statement by statement; any other
+    statement makes the translation fail): adapter (stop without one), command line, plan mode, termination
+    check, THEN the builds - whenever the run is not finished and builds are enabled, whatever its progress -,
+    THEN the process - whenever the run is not finished -, the completion report, the result.  This is the order
+    and these are the guards of Model.Machine.lstep, on which the theorems above are proved. *)
+Theorem C13_execute_run_order :
+  execute_run_steps =
+    [XAdapter; XStopIfNoAdapter; XCmdline; XPlanOrGoOn; XGetTermCheck; XReportStart; XTermCheck;
+     XBuildIf GNotTerminateAndBuilds; XProcessIf GNotTerminate; XReportIfTerminated; XReturnTerminate].
+Proof. reflexivity. Qed.
+Print Assumptions C13_execute_run_order.
+
 (** --setup-only (the loop of Configurator.get_runs is read off the source: setup_only_shape): in whatever
     order the runs are visited, for every build command that some run of the session needs at least one
     run needing it is kept (and then executed once: invocations = iterations = 1); only runs of the
